@@ -97,23 +97,53 @@ def compare(engine_res, parsed) -> Optional[str]:
     return None
 
 
-def make_case(rng, depth, risky_div=False, measure_types=None, tries=20, nested=False, kinds=None):
+def _flags(dg, stmts_out):
+    """facts about the generated script that the classification of a disagreement needs (stable under shrinking of the data):
+    measure-renaming-operator  some node's single measure was renamed by the engine (bool_var / int_var …)
+    union-under-structure-change  a union is used INSIDE a statement whose result has other component names than the union"""
+    flags = []
+    if dg.renaming_ops and any(any(t in v for t in dg.renaming_ops) for v, _ in stmts_out):
+        flags.append("measure-renaming-operator")
+    for v, sh in stmts_out:
+        for ut, ush in dg.unions:
+            if ut in v and ut != v and (sorted(n for n, _ in ush.ids) != sorted(n for n, _ in sh.ids) or
+                                        sorted(n for n, _ in ush.ms) != sorted(n for n, _ in sh.ms)):
+                flags.append("union-under-structure-change")
+    return sorted(set(flags))
+
+
+def make_case(rng, depth, risky_div=False, measure_types=None, tries=20, nested=False, kinds=None, directed=None):
     """flat mode (default): a script of 1-4 statements, each applying ONE dataset-level operator or a clause chain to inputs or
-    earlier results; nested mode: one statement with operators nested up to `depth` (exercises the engine's nested-operator path)"""
+    earlier results; nested mode: one statement with operators nested up to `depth` (exercises the engine's nested-operator path);
+    directed=<family>: one statement from exprgen.DG.directed over inputs of that family"""
     for _ in range(tries):
-        dss = G.gen_inputs(rng, n=rng.choice([2, 3]), measure_types=measure_types)
+        setops = (not kinds) or "setop" in kinds
+        fam = {"nest21": "nest21", "setctx": "same", "chain": None}[directed] if directed else ("mixed" if setops and rng.random() < 0.7 else None)
+        if directed == "chain" and rng.random() < 0.3:
+            fam = "same"
+        dss = G.gen_inputs(rng, n=rng.choice([2, 3]), measure_types=measure_types, family=fam)
         structs, dps = G.inputs_engine(dss)
         dg = G.DG(rng, dss, structs, risky_div=risky_div)
         if kinds:
             dg.kinds = kinds
-        if nested:
+            if nested:
+                dg.nested_kinds = kinds
+        if directed:
+            out = dg.directed(directed)
+            if out is None or out[0] in dss:
+                continue
+            stmts = [("DS_r", out[0], out[1], True)]
+            outs = [(out[0], out[2])]
+            nested = not G_FLAT_CHAIN.fullmatch(out[0])
+        elif nested:
             out = dg.gen(depth)
             if out is None or out[0] in dss:
                 continue
             stmts = [("DS_r", out[0], out[1], True)]
+            outs = [(out[0], out[2])]
         else:
             leaves = {n: d["shape"] for n, d in dss.items()}
-            stmts = []
+            stmts, outs = [], []
             k = rng.choice([1, 2, 2, 3, 4]) if depth > 1 else 1
             ok = True
             for i in range(k):
@@ -127,6 +157,7 @@ def make_case(rng, depth, risky_div=False, measure_types=None, tries=20, nested=
                     break
                 name = "DS_r" if last else f"T_{i + 1}"
                 stmts.append((name, out[0], out[1], last))
+                outs.append((out[0], out[2]))
                 leaves = dict(leaves)
                 leaves[name] = out[2]
             if not ok:
@@ -134,12 +165,16 @@ def make_case(rng, depth, risky_div=False, measure_types=None, tries=20, nested=
         script = "".join(f"{n} {'<-' if last else ':='} {v};\n" for n, v, _, last in stmts)
         coq = "[" + "; ".join(f"({G.coq_string(n)}, {c})" for n, _, c, _ in stmts) + "]"
         return {"dss": dss, "structs": structs, "dps": dps, "script": script, "coq": coq, "hist": dg.hist,
-                "rejected": dg.rejected, "nested": nested}
+                "rejected": dg.rejected, "nested": nested, "flags": _flags(dg, outs), "family": directed or ("nested" if nested else "flat")}
     return None
 
 
+# a clause chain over a named dataset (anything else in one statement nests operators)
+G_FLAT_CHAIN = __import__("re").compile(r"[A-Za-z_0-9]+(\[[^\]]*\])+")
+
+
 def case_json(c):
-    return {"script": c["script"], "coq": c["coq"], "nested": c.get("nested", False),
+    return {"script": c["script"], "coq": c["coq"], "nested": c.get("nested", False), "flags": c.get("flags", []),
             "inputs": {n: {"ids": d["shape"].ids, "ms": d["shape"].ms,
                            "rows": [[k, [str(x) if isinstance(x, Fraction) else x for x in m]] for k, m in d["rows"]]}
                        for n, d in c["dss"].items()}}
@@ -152,8 +187,11 @@ def case_from_json(j):
         rows = [(list(k), [Fraction(x) if (t == "Number" and x is not None) else x for x, (_, t) in zip(m, ms)]) for k, m in d["rows"]]
         dss[n] = {"shape": G.Shape([tuple(x) for x in d["ids"]], ms), "rows": rows}
     structs, dps = G.inputs_engine(dss)
+    flags = j.get("flags")
+    if flags is None:   # cases stored before flags existed
+        flags = ["measure-renaming-operator"] if ('"bool_var"' in j["coq"] or '"int_var"' in j["coq"]) else []
     return {"dss": dss, "structs": structs, "dps": dps, "script": j["script"], "coq": j["coq"], "hist": {}, "rejected": 0,
-            "nested": j.get("nested", False)}
+            "nested": j.get("nested", False), "flags": flags}
 
 
 def run_engine(c):
@@ -198,41 +236,109 @@ def classify_disagreement(c, er):
             sym = f"vtl-error-{code}"
     else:
         sym = "wrong-result"
+    flags = c.get("flags", [])
+    if sym == "decimal-scale-overflow":   # one root cause (DECIMAL(28,10): every * adds the scales), nested or not
+        return "number-multiplication:decimal-scale-overflow"
+    if "union-under-structure-change" in flags and (sym == "wrong-result" or sym.startswith("sql-")):
+        return f"nested:union-under-structure-change:{'failure' if sym != 'wrong-result' else sym}"
     if c.get("nested"):
-        shape = "clause-applied-to-operator-result" if CLAUSE_ON_RESULT.search(c["script"]) else "nested-operators"
+        if CLAUSE_ON_RESULT.search(c["script"]):
+            # the known defect concerns operators whose single measure the engine renames; anything else is a different shape
+            shape = "clause-applied-to-operator-result" if "measure-renaming-operator" in flags else "clause-applied-to-plain-operator-result"
+        else:
+            shape = "nested-operators"
         return f"nested:{shape}:{'failure' if sym != 'wrong-result' and 'decimal' not in sym else sym}"
     if sym == "decimal-scale-overflow":
         return "number-multiplication:decimal-scale-overflow"
     return sym + ":" + "+".join(sorted(k for k in c["hist"] if not k.startswith("c:")))[:80]
 
 
-def run_k(ctx, pid, n_flat, n_nested, kinds, tag):
-    """corpus first, then generated flat scripts, then a small nested stream; returns stats"""
+def make_incompatible_case(rng):
+    """a set operator over operands whose structures differ in the NUMBER of components (an extra measure, a missing identifier):
+    semantic analysis must answer 1-1-17-1, as d_setop does"""
+    dss = G.gen_inputs(rng, family="same")
+    names = list(dss)
+    a, b = names[0], names[1]
+    sh = dss[b]["shape"]
+    if len(sh.ids) > 1 and rng.random() < 0.5:
+        ids = sh.ids[:-1]
+        seen, rows = set(), []
+        for k, m in dss[b]["rows"]:
+            if tuple(k[:-1]) not in seen:
+                seen.add(tuple(k[:-1]))
+                rows.append((k[:-1], m))
+        dss[b] = {"shape": G.Shape(ids, sh.ms), "rows": rows}
+    else:
+        dss[b] = {"shape": G.Shape(sh.ids, sh.ms + [("Me_5", "Integer")]), "rows": [(k, m + [rng.choice([None, 1, 2])]) for k, m in dss[b]["rows"]]}
+    if rng.random() < 0.5:
+        a, b = b, a
+    op = rng.choice(list(G.SETOP))
+    structs, dps = G.inputs_engine(dss)
+    return {"dss": dss, "structs": structs, "dps": dps, "script": f"DS_r <- {op}({a}, {b});\n",
+            "coq": f"[(\"DS_r\", (DSet {G.SETOP[op]} (DVar {G.coq_string(a)}) (DVar {G.coq_string(b)})))]",
+            "hist": {"set:" + op: 1, "set:incompatible-structures": 1}, "rejected": 0, "nested": False, "flags": [], "family": "incompatible"}
+
+
+def creates_case_variant(c):
+    """does some clause of the script (calc target, rename target) create a component whose name equals another component's
+    name up to letter case?  (C29: the shape of the recorded catalog-collision defect, now that the generator really emits
+    rename and calc of new components)"""
+    import re
+    names = {x for d in c["dss"].values() for x, _ in d["shape"].ids + d["shape"].ms}
+    created = (set(re.findall(r"\bcalc\s+([A-Za-z_][A-Za-z_0-9]*)\s*:=", c["script"])) |
+               set(re.findall(r",\s*([A-Za-z_][A-Za-z_0-9]*)\s*:=", c["script"])) |
+               set(re.findall(r"\brename\s+[A-Za-z_][A-Za-z_0-9]*\s+to\s+([A-Za-z_][A-Za-z_0-9]*)", c["script"])))
+    allnames = names | created
+    return any(a != b and a.lower() == b.lower() for a in created for b in allnames)
+
+
+def run_k(ctx, pid, n_flat, n_nested, kinds, tag, directed=None, nested_kinds=None, corpus_dir=None, cov_key="distribution",
+          exclude_flags=(), n_incompatible=0):
+    """corpus first, then generated flat scripts, then a nested stream, then the directed single-statement families
+    (`directed` = {family: count}); returns the number of disagreements"""
     import hashlib
     from common import CORPUS
     engine.install(need_parser=True)
-    cdir = CORPUS / pid
+    cdir = CORPUS / (corpus_dir or pid)
     cases = []
     if cdir.exists():
         for p in sorted(cdir.glob("*.json")):
             cases.append(case_from_json(json.loads(p.read_text())))
     n_corpus = len(cases)
     rejected = 0
+    def wanted(c):
+        return c is not None and not (c["nested"] and any(f in exclude_flags for f in c["flags"]))
     while len(cases) < n_corpus + n_flat:
         c = make_case(ctx.rng, ctx.rng.choice([1, 2, 2, 3]), risky_div=(ctx.rng.random() < 0.15), kinds=kinds)
         if c:
             cases.append(c)
             rejected += c["rejected"]
     while len(cases) < n_corpus + n_flat + n_nested:
-        c = make_case(ctx.rng, ctx.rng.choice([2, 3]), nested=True)
-        if c:
+        c = make_case(ctx.rng, ctx.rng.choice([2, 3]), nested=True, kinds=nested_kinds)
+        if wanted(c):
             cases.append(c)
+    for _ in range(n_incompatible):
+        cases.append(make_incompatible_case(ctx.rng))
+    fam_hist = {}
+    for fam, cnt in (directed or {}).items():
+        got = tries = 0
+        while got < cnt and tries < cnt * 6:
+            tries += 1
+            c = make_case(ctx.rng, 2, risky_div=(ctx.rng.random() < 0.1), directed=fam, tries=6)
+            if wanted(c):
+                cases.append(c)
+                got += 1
+        fam_hist[fam] = got
+        ctx.oblige(f"generator: directed family {fam} produced its {cnt} cases", got == cnt, f"{got} of {cnt}")
     model = eval_model(cases, tag)
     hist, errs, dis = {}, {}, 0
+    flag_hist = {}
     rows_hist = {"0": 0, "1-3": 0, "4-12": 0}
     for c, m in zip(cases, model):
         for k, v in c["hist"].items():
             hist[k] = hist.get(k, 0) + v
+        for f in c.get("flags", []):
+            flag_hist[f] = flag_hist.get(f, 0) + 1
         for d in c["dss"].values():
             n = len(d["rows"])
             rows_hist["0" if n == 0 else "1-3" if n <= 3 else "4-12"] += 1
@@ -262,10 +368,10 @@ def run_k(ctx, pid, n_flat, n_nested, kinds, tag):
             cj = json.dumps(case_json(c), sort_keys=True, default=str)
             (cdir / (hashlib.sha1(cj.encode()).hexdigest()[:10] + ".json")).write_text(cj)
         ctx.violation(key, f"{c['script'].strip()} :: {d}", {"case": case_json(c), "disagreement": d})
-    ctx.cov["distribution"] = {"operators": dict(sorted(hist.items(), key=lambda x: -x[1])), "engine_errors": errs,
-                               "input_rows": rows_hist, "corpus": n_corpus, "flat": n_flat, "nested": n_nested,
-                               "generator_candidates_rejected_by_semantic_analysis": rejected}
-    ctx.cov["disagreements"] = dis
+    ctx.cov[cov_key] = {"operators": dict(sorted(hist.items(), key=lambda x: -x[1])), "engine_errors": errs,
+                        "input_rows": rows_hist, "corpus": n_corpus, "flat": n_flat, "nested": n_nested, "directed": fam_hist,
+                        "script_flags": flag_hist, "generator_candidates_rejected_by_semantic_analysis": rejected}
+    ctx.cov["disagreements"] = ctx.cov.get("disagreements", 0) + dis if cov_key != "distribution" else dis
     return dis
 
 
